@@ -146,18 +146,22 @@ def report_missing_scan(rep, w: Walker, what: str, pre: str = "") -> bool:
                 bufs.setdefault(e.target[1], e)
     if len(bufs) < 2:
         return False
-    # an insertion loop over one of the buffers IS there (it compares two slots of the same buffer with `<`): then the
-    # scan was not recognised for another reason (its surroundings were restructured) - that is not a finding
-    from .ir import subterms
+    # a WELL-FORMED insertion loop over one of the buffers is there (`while c > 0 and d[c] < d[c-1]: ...; c -= 1` or its
+    # for/break form): then the scan was not recognised because its surroundings were restructured (a per-query loop
+    # written as a comprehension, results carried between phases) - not a finding; a malformed loop still is one
     from .rules_heap import strip_old
     for li in w.loops.values():
-        conds = [li.cond] if li.cond is not None else []
-        conds += [g for e in w.events if li.lid in e.loops and e.kind == "break" for g, _ in e.guards]
-        for c in conds:
-            for t in subterms(c):
-                if t[0] == "cmp" and t[1] in ("<", "<=") and t[2][0] == "idx" and t[3][0] == "idx" \
-                        and strip_old(t[2][1]) == strip_old(t[3][1]) and strip_old(t[2][1]) in bufs:
-                    return False
+        if li.kind not in ("while", "for"):
+            continue
+        bv = _bubble_view(w, li)
+        if bv is None:
+            continue
+        cvar, c, bound_ok, tests, start = bv
+        for t in tests:
+            if bound_ok and t[0] == "cmp" and t[1] == "<" and t[2][0] == "idx" and t[3][0] == "idx" \
+                    and strip_old(t[2][1]) == strip_old(t[3][1]) and strip_old(t[2][1]) in bufs \
+                    and t[2][2] == c and lin_eq(lin(t[3][2]), {c: 1, 1: -1}):
+                return False
     ev = min(bufs.values(), key=lambda e: e.seq)
     rep.ev(pre + "KNN-insertion", ev, False,
            f"{what}: candidates are written into slot k of the k+1-slot buffers, but no loop that moves the new entry "
